@@ -120,14 +120,18 @@ PROPS = {
              'fired at every k-th node creation of every public operation (dd.bdd with referenced operands, dd.autoref) and compared '
              'with the truth-table oracle.',
              bounded=['vlib.rtc.c09'], tb=['reorder()/swap contract assumed (C07 bounded)'], design_ref='DESIGN.md 7/C09'),
-    'C10': P('exploration',
-             'Model counting (2**gap arithmetic), generator pipelines (pick_iter/_sat_iter) and the support traversal are outside the '
-             'generator. Proved against ghost family HASLVL (a node at the variable\'s level is reachable; = "depends on" by lemma L-ESS): '
-             'is_essential, and support/_support (for an arbitrary level: it is in the result iff reachable; visited-set pruning and '
-             'the early exit when every level is present, the latter with an ASSUMED pigeonhole fact about set cardinality). '
-             'count, pick, pick_iter: run-time contracts, all functions of 3 variables with 0-2 unused variables, all orders, and '
-             'managers of 10-14 variables.',
-             bounded=['vlib.rtc.c10'], design_ref='DESIGN.md 7/C10'),
+    'C10': P('other',
+             'First sentence proved: support / _support (dd.bdd and through dd.autoref) and is_essential against ghost family HASLVL (a node '
+             'at the variable\'s level is reachable; = "depends on" by lemma L-ESS): for an arbitrary level, it is in the result iff '
+             'reachable; visited-set pruning and the early exit when every level is present, the latter with an ASSUMED pigeonhole fact '
+             'about set cardinality. Model counting (2**gap arithmetic, rank of the support levels) and the generator pipeline '
+             '(pick_iter/_sat_iter, _enumerate_minterms) are outside the generator: pick_iter and pick are stated as observed contracts in '
+             'the language of the model (each assignment satisfies u however completed, mentions every care variable, no overlap, the '
+             'models are covered; None only for false) and evaluated by z3 on real executions under every assignment; count, pick, '
+             'pick_iter by run-time contracts: all functions of 3 variables with 0-2 unused variables, all orders, managers of 10-14 '
+             'variables, with collections between the queries. Category "other": mixed proof + bounded.',
+             bounded=['vlib.rtc.c10'], tb=['count/_sat_len, pick_iter/_sat_iter, _enumerate_minterms: bounded / observed only'],
+             design_ref='DESIGN.md 7/C10'),
     'C11': P('proof',
              'dd.bdd._copy_bdd with two distinct managers, copy_bdd and BDD.copy are proved: result in the target denotes the source function '
              'by variable name (A2 = A after the level map built from names), whatever the two orders; target WF and Ext (existing content '
